@@ -37,17 +37,21 @@ REQUIRE.pop("sim_release_checked")
 
 def uncontended_case(rng):
     algo = rng.choice(_sim.ALGOS)
-    tps = rng.choice([1, 2, 5, 10, 20, 100])
+    # tick rates of every kind: reciprocals that are / are not finite decimals, audio-style rates, the extremes
+    tps = rng.choice([1, 2, 5, 10, 20, 100]) if rng.random() < 0.5 else rng.choice([3, 6, 7, 15, 60, 128, 3000, 30000, 44100, 64000, 99999, 100000])
     multi = rng.random() < 0.5 or algo == "priority-pool"
     nops = rng.choice([1, 2, 3, 4])
     shape = "chain" if not multi else rng.choice(["chain", "diamond", "random"])
+    # phases of a few ticks, or of hundreds / thousands (a relative error in the tick length needs length to show)
+    maxn = 5 if rng.random() < 0.6 else rng.choice([300, 1000])
     spec = gen.simple_pipeline(rng, "solo", tps, nops=nops, prio=rng.choice(gen.PRIOS), shape=shape, mode="safe",
-                               cpus_hint=rng.choice([1, 4]), mem_ref=0.2, maxn=5)
+                               cpus_hint=rng.choice([1, 4]), mem_ref=0.2, maxn=maxn)
     for o in spec["ops"]:
         for s in o["segs"]:
             s["mem"] = 0.01 if s["mem"] is None else min(s["mem"], 0.2)
     a = rng.choice([0, 1, 7])
-    params = {"duration": 2000 / tps, "ticks_per_second": tps, "num_pools": 2 if algo == "priority-pool" else rng.choice([1, 2]),
+    params = {"duration": (2000 if maxn == 5 else 16 * maxn + 1000) / tps, "ticks_per_second": tps,
+              "num_pools": 2 if algo == "priority-pool" else rng.choice([1, 2]),
               "cpus_per_pool": rng.choice([4, 10, 64]), "ram_gb_per_pool": rng.choice([16, 64, 256]),
               "multi_operator_containers": multi, "allow_memory_overcommit": algo == "overbook"}
     return {"kind": "sim", "algo": algo, "params": params, "workload": {"type": "script", "arrivals": {str(a): [spec]}},
